@@ -225,7 +225,7 @@ func runUDPServer(st Stim) Trace {
 			for _, f := range fs {
 				f(clock())
 			}
-			time.Sleep(300 * time.Microsecond) // a ping written by the tick reaches the peer's socket
+			settlePings(npings) // a ping written by the tick reaches the peer's socket
 		}
 		closed := false
 		if closes.Load() > 0 {
@@ -400,7 +400,7 @@ func runTCPServer(st Stim) Trace {
 			for _, f := range fs {
 				f(clock())
 			}
-			time.Sleep(300 * time.Microsecond)
+			settlePings(npings)
 		}
 		closed := false
 		if closesA.Load() > 0 {
@@ -414,4 +414,19 @@ func runTCPServer(st Stim) Trace {
 	}
 	tr.Closes = int(closesA.Load())
 	return tr
+}
+
+// settlePings: a ping written by a tick has left the library when the tick returns; the peer (a goroutine of the driver that
+// reads the loopback socket) sees it a moment later - how much later depends on the load of the machine. Wait until the
+// number of pings seen has not moved for 2 ms (at most 100 ms).
+func settlePings(n func() int) {
+	last, since := n(), time.Now()
+	for end := time.Now().Add(100 * time.Millisecond); time.Now().Before(end); {
+		time.Sleep(200 * time.Microsecond)
+		if v := n(); v != last {
+			last, since = v, time.Now()
+		} else if time.Since(since) >= 2*time.Millisecond {
+			return
+		}
+	}
 }
